@@ -13,6 +13,7 @@ var lintSingles = [][]string{
 	{"--auto-fix"},
 	{"--fail-on-warn"},
 	{"--max-length", "20"},
+	{"-o", "lint.out"},
 }
 
 func lintFlagSets() [][]string {
@@ -59,14 +60,20 @@ func parseLFlags(fl []string) lflags {
 }
 
 func enumLint(e *common.Enum) {
-	all := append(append([]file{}, baseClasses...), lintClasses...)
+	all := append(append(append([]file{}, baseClasses...), lintClasses...), missingFile)
 	for i, fl := range lintFlagSets() {
 		lf := parseLFlags(fl)
 		isSingle := i < len(lintSingles)
 		var sets [][]file
 		switch {
 		case e.Thorough():
-			sets = subsets(all, 3, true)
+			// every set of <=3 of the 12 classes, pairs in both orders
+			sets = subsets(all, 3, false)
+			for _, s := range subsets(all, 2, false) {
+				if len(s) == 2 {
+					sets = append(sets, []file{s[1], s[0]})
+				}
+			}
 		case isSingle:
 			sets = subsets(all, 2, false) // quick, single flags: every set of <=2 of the 11 classes
 		default:
@@ -80,6 +87,9 @@ func enumLint(e *common.Enum) {
 			continue
 		}
 		for _, f := range all {
+			if f.missing() {
+				continue
+			}
 			fl, f := fl, f
 			do(e, "lint-stdin|"+lf.key+"|"+f.Class, func(c *common.Ctx) { lintStream(c, fl, f, true) })
 			if looksLikeSQL(f.Content) {
@@ -97,6 +107,9 @@ func lintFiles(c *common.Ctx, fl []string, files []file) {
 	var notes []string
 	for _, f := range files {
 		v, det := lintVerdict(f.Content, f.Name, lf.maxLen, lf.failOnWarn)
+		if f.missing() {
+			v, det = reject, "the file does not exist"
+		}
 		vs = append(vs, v)
 		notes = append(notes, f.Name+": "+det)
 	}
@@ -126,6 +139,9 @@ func lintFiles(c *common.Ctx, fl []string, files []file) {
 			changed = true
 		}
 		v, _ := lintVerdict(now, f.Name, lf.maxLen, lf.failOnWarn)
+		if f.missing() {
+			v = reject
+		}
 		after = append(after, v)
 	}
 	if changed {
@@ -183,7 +199,7 @@ var parseFlagSets = [][]string{
 }
 
 func enumParse(e *common.Enum) {
-	all := append(append([]file{}, baseClasses...), validateClasses[1], validateClasses[3])
+	all := append(append([]file{}, baseClasses...), validateClasses[1], validateClasses[3], missingFile)
 	for _, fl := range parseFlagSets {
 		key := strings.Join(fl, " ")
 		if key == "" {
@@ -191,7 +207,7 @@ func enumParse(e *common.Enum) {
 		}
 		for _, f := range all {
 			for _, mode := range []string{"file", "stdin", "inline"} {
-				if mode == "inline" && !looksLikeSQL(f.Content) {
+				if mode == "inline" && !looksLikeSQL(f.Content) || mode != "file" && f.missing() {
 					continue
 				}
 				fl, f, mode := fl, f, mode
@@ -204,7 +220,7 @@ func enumParse(e *common.Enum) {
 func parseOne(c *common.Ctx, fl []string, key string, f file, mode string) {
 	sb := newSandbox()
 	defer sb.close()
-	v := libVerdict(f.Content, "")
+	v := fileVerdict(f, "")
 	tokensOnly := len(fl) > 0 && fl[0] == "--tokens"
 	args := cat([]string{"parse"}, fl...)
 	var in *string
